@@ -16,13 +16,21 @@ def _alarm(signum, frame):
 
 
 def guarded(fn, seconds=0.3):
-    """run fn() with a wall-clock guard; returns ("ok", value) | ("error", excname) | ("hang",)"""
-    old = signal.signal(signal.SIGALRM, _alarm)
-    signal.setitimer(signal.ITIMER_REAL, seconds, 0.1)  # keeps firing until the call gives up
+    """run fn() under a budget; returns ("ok", value) | ("error", excname) | ("hang",).
+
+    The budget is CPU time of this process (ITIMER_VIRTUAL): a decoder that spins burns CPU and is
+    interrupted after `seconds`, while a busy machine (checks running in parallel) does not turn a
+    slow but finite call into a "hang".  A generous wall-clock cap (ITIMER_REAL) catches calls that
+    block without using CPU."""
+    old_v = signal.signal(signal.SIGVTALRM, _alarm)
+    old_r = signal.signal(signal.SIGALRM, _alarm)
+    signal.setitimer(signal.ITIMER_VIRTUAL, seconds, 0.1)  # keeps firing until the call gives up
+    signal.setitimer(signal.ITIMER_REAL, max(20.0, 40 * seconds), 1.0)
     try:
         try:
             return ("ok", fn())
         finally:
+            signal.setitimer(signal.ITIMER_VIRTUAL, 0)
             signal.setitimer(signal.ITIMER_REAL, 0)
     except Hang:
         return ("hang",)
@@ -33,7 +41,8 @@ def guarded(fn, seconds=0.3):
     except BaseException as exc:  # noqa: BLE001 - every exception is an observation
         return ("error", type(exc).__name__)
     finally:
-        signal.signal(signal.SIGALRM, old)
+        signal.signal(signal.SIGVTALRM, old_v)
+        signal.signal(signal.SIGALRM, old_r)
 
 
 def real_tree(obj, depth=12):
